@@ -327,6 +327,62 @@ package ast
 //@   requires n != nil
 //@   ensures @textbook len(result) == 1 && result[0] == n.Pos
 
+// ---- C14: every mapper of the direct route hands a node up the chain (assume/guarantee over the grammar of
+// parser.New, as for the NFA route) ----
+//@ spec func qOK(q any) bool = (typeis(q, "rune") && (unbox(q, "rune") == '?' || unbox(q, "rune") == '*' || unbox(q, "rune") == '+')) || typeis(q, "tuple[int, *int]")
+//@ func quantifyNode(n Node, q any) Node
+//@   modifies everything
+//@   requires isNode(n)
+//@   assumes @L-COMB qOK(q)
+//@   ensures @never-nil result != nil
+//@ func runeToChar(r rune) *Char
+//@   fresh-result
+//@   ensures result != nil && result.Val == r
+//@ func (m *mappers) ToSingleChar(r comb.Result) (comb.Result, bool)
+//@   assumes @L-COMB typeis(r.Val, "rune")
+//@   ensures @node result1 && isNode(result0.Val)
+//@ func (m *mappers) ToMatch(r comb.Result) (comb.Result, bool)
+//@   modifies everything
+//@   assumes @L-COMB typeis(r.Val, "comb.List") && len(unbox(r.Val, "comb.List")) == 2 && isNode(unbox(r.Val, "comb.List")[0].Val)
+//@   assumes @L-COMB typeis(unbox(r.Val, "comb.List")[1].Val, "tuple[any, bool]") ==> qOK(unbox(unbox(r.Val, "comb.List")[1].Val, "tuple[any, bool]").p)
+//@   ensures @node result1 && result0.Val != nil
+//@ func (m *mappers) ToGroup(r comb.Result) (comb.Result, bool)
+//@   modifies everything
+//@   assumes @L-COMB typeis(r.Val, "comb.List") && len(unbox(r.Val, "comb.List")) == 4 && isNode(unbox(r.Val, "comb.List")[1].Val)
+//@   assumes @L-COMB typeis(unbox(r.Val, "comb.List")[3].Val, "tuple[any, bool]") ==> qOK(unbox(unbox(r.Val, "comb.List")[3].Val, "tuple[any, bool]").p)
+//@   ensures @node result1 && result0.Val != nil
+//@ func (m *mappers) ToSubexpr(r comb.Result) (comb.Result, bool)
+//@   assumes @L-COMB typeis(r.Val, "comb.List")
+//@   ensures @node result1 && typeis(result0.Val, "*Concat") && unbox(result0.Val, "*Concat") != nil
+//@ func (m *mappers) ToExpr(r comb.Result) (comb.Result, bool)
+//@   assumes @L-COMB typeis(r.Val, "comb.List") && len(unbox(r.Val, "comb.List")) == 2 && isNode(unbox(r.Val, "comb.List")[0].Val)
+//@   assumes @L-COMB typeis(unbox(r.Val, "comb.List")[1].Val, "comb.List") ==> len(unbox(unbox(r.Val, "comb.List")[1].Val, "comb.List")) == 2 && isNode(unbox(unbox(r.Val, "comb.List")[1].Val, "comb.List")[1].Val)
+//@   ensures @node result1 && isNode(result0.Val)
+//@ func (m *mappers) ToRegex(r comb.Result) (comb.Result, bool)
+//@   assumes @L-COMB typeis(r.Val, "comb.List") && len(unbox(r.Val, "comb.List")) == 2 && isNode(unbox(r.Val, "comb.List")[1].Val)
+//@   ensures @node result1 && isNode(result0.Val)
+//@ func (m *mappers) ToAnchor(r comb.Result) (comb.Result, bool)
+//@   assumes @L-COMB typeis(r.Val, "rune")
+//@   ensures result1
+//@ func (m *mappers) ToQuantifier(r comb.Result) (comb.Result, bool)
+//@   assumes @L-COMB typeis(r.Val, "comb.List") && len(unbox(r.Val, "comb.List")) == 2
+//@   ensures result1
+//@ func (m *mappers) ToCharClass(r comb.Result) (comb.Result, bool)
+//@   modifies everything
+//@   assumes @L-COMB typeis(r.Val, "string")
+//@   ensures @node result1 ==> typeis(result0.Val, "*Alt")
+//@ func (m *mappers) ToASCIICharClass(r comb.Result) (comb.Result, bool)
+//@   modifies everything
+//@   assumes @L-COMB typeis(r.Val, "string")
+//@   ensures @node result1 ==> typeis(result0.Val, "*Alt")
+//@ func (m *mappers) ToUnicodeCharClass(r comb.Result) (comb.Result, bool)
+//@   modifies everything
+//@   assumes @L-COMB typeis(r.Val, "comb.List") && len(unbox(r.Val, "comb.List")) == 4 && typeis(unbox(r.Val, "comb.List")[0].Val, "string") && typeis(unbox(r.Val, "comb.List")[2].Val, "string")
+//@   ensures @node result1 ==> typeis(result0.Val, "*Alt")
+//@ func (m *mappers) ToAnyChar(r comb.Result) (comb.Result, bool)
+//@   modifies everything
+//@   ensures @node result1 && typeis(result0.Val, "*Alt") && unbox(result0.Val, "*Alt") != nil
+
 // Parse: any recorded semantic error and any syntax failure is returned; success never comes with a nil tree.
 //@ func Parse(regex string) (*AST, error)
 //@   modifies everything
